@@ -11,14 +11,14 @@ ID = 'C06'
 TITLE = 'Both documents can be read back from the rendered diff'
 LEVEL = 'exploration'
 TECHNIQUE = ('Hypothesis-generated pairs with a hostile string alphabet x layouts; the rendered ANSI text is classified '
-             'character by character, projected on each side and parsed by an independent separator-tolerant JSON parser')
+             'character by character, projected on each side and parsed by an independent separator-tolerant JSON parser; differential of the ~~/++ marks of the colourless rendering against the ANSI classification')
 RULE = ("Cases: mutated pairs of JSON-representable documents whose strings come from a hostile alphabet (quotes, "
         "backslashes, '->', '~~', '++', control characters, non-ASCII incl. the two combining marks themselves) x dict "
         "strategy x join_lists x join_dict_items; plus lists with several equal container siblings of which one changes, and mappings with several keys renamed at once (some to keys of equal length); rendered with JSONFormatter on Printer(ansi_color=True). Oracle: an "
         "ANSI state machine + combining-mark reader classifies every output character as kept / removed / inserted / "
         "arrow; the full stream is lexed into JSON tokens; projecting away the inserted (resp. removed) class and "
         "parsing with a comma-tolerant parser must give a document canonically equal to a (resp. b); change marks are "
-        "present iff the documents differ. Non-trivial: the rendering has both removed and inserted marks and either a "
+        "present iff the documents differ. Pairs without a tilde or plus in any string are rendered once more on Printer(ansi_color=False): the ~~ / ++ marks read as toggles must be balanced, the unmarked text must equal the ANSI text, and every character under a mark must carry the same class in the ANSI rendering (a Replace is shown as 'old -> new' without marks there, so unmarked characters are not compared). Non-trivial: the rendering has both removed and inserted marks and either a "
         "string token with mixed classes or a container under a mark. Distinct by case hash.")
 ASSUMPTIONS = [
     "separator (comma) placement is ignored, as the property allows",
@@ -168,4 +168,54 @@ def verify(case, out, d, a, b, tag):
     if not marks and la != lb:
         out.fail('no-marks-on-different-documents', f"{tag}a={a!r} b={b!r}; text={text[:200]!r}")
     out.info = {'marks': marks, 'len': len(text)}
+    plain_marks(case, out, d, a, b, tag, chars)
     return out
+
+
+def _strings(v):
+    if isinstance(v, str):
+        yield v
+    elif isinstance(v, dict):
+        for k, x in v.items():
+            yield from _strings(k)
+            yield from _strings(x)
+    elif isinstance(v, (list, tuple)):
+        for x in v:
+            yield from _strings(x)
+
+
+def plain_marks(case, out, d, a, b, tag, chars):
+    # The same diff on a printer without ANSI colour (what a pipe or a file receives) marks removed text as ~~...~~ and
+    # inserted text as ++...++.  When no string of either document contains a tilde or a plus the marks are unambiguous:
+    # read as toggles they must be balanced and must classify every visible character exactly as the ANSI rendering does.
+    if any('~' in s or '+' in s for doc in (a, b) for s in _strings(doc)):
+        return
+    with guard('render without ANSI'):
+        plain = render.render_json(d, join_lists=bool(case.get('jl')), join_dict_items=bool(case.get('jd')), ansi=False)
+    out.label('plain-marks-judged')
+    state = {'R': False, 'I': False}
+    got = []
+    i = 0
+    while i < len(plain):
+        two = plain[i:i + 2]
+        if two == '~~' or two == '++':
+            k = 'R' if two == '~~' else 'I'
+            state[k] = not state[k]
+            i += 2
+            continue
+        got.append((plain[i], 'X' if state['R'] and state['I'] else 'R' if state['R'] else 'I' if state['I'] else 'K'))
+        i += 1
+    ctx = f"{tag}a={a!r} b={b!r}; plain text={plain[:300]!r}"
+    if state['R'] or state['I']:
+        out.fail('plain-marks-unbalanced', ctx)
+        return
+    want = [(c, 'K' if k == 'A' else k) for c, k in chars]
+    if [c for c, _ in got] != [c for c, _ in want]:
+        out.fail('plain-text-differs-from-ansi-text', ctx)
+        return
+    # (a Replace is shown as 'old -> new' without ~~/++ in this mode, so the two renderings are not required to agree on the
+    # class of every character; agreement is required only where the plain rendering does carry a mark)
+    for (c, k), (_, w) in zip(got, want):
+        if k in 'RIX' and k != w and not c.isspace():
+            out.fail('plain-marks-disagree-with-ansi-marks', f"character {c!r} is {k} in the plain rendering and {w} in the ANSI rendering; {ctx}")
+            return
